@@ -135,6 +135,38 @@ fn run_one(tracer: &Tracer, cfg: &Cfg, ops: &[Value], plan: Option<FaultPlan>, p
 /// the last run took longer than the hang threshold (it was reported; stop enumerating)
 static SLOW: std::sync::atomic::AtomicBool = std::sync::atomic::AtomicBool::new(false);
 
+/// recorded finding F40: commit fails while writing meta.json, the writer is kept, a merge follows
+fn run_f40(tracer: &Tracer) {
+    tracer.reset_canon();
+    let mut cfg = Cfg::default();
+    cfg.flush_after = 2;
+    tracer.emit(json!({"ev":"reset","cfg":cfg.to_json(),"tag":{"f40":true}}));
+    let mut w = World::new_quiet(tracer, &cfg, false);
+    install_sink(tracer, w.regs.clone(), None);
+    w.exec(&json!({"op":"new_writer"}));
+    w.exec(&json!({"op":"add","id":1,"t":"b","v":0}));
+    w.exec(&json!({"op":"add","id":2,"t":"c","v":0}));
+    w.exec(&json!({"op":"commit"}));
+    w.exec(&json!({"op":"add","id":3,"t":"b","v":0}));
+    w.exec(&json!({"op":"del","pred":{"k":"term","t":"b"}}));
+    w.exec(&json!({"op":"add","id":4,"t":"b","v":0}));
+    let now = w.dir.opcount();
+    w.dir.set_fault(FaultPlan { k: now + 1, ops: vec!["atomic_write".into()], only_path: "meta.json".into(), skip_locks: true, ..Default::default() });
+    w.exec(&json!({"op":"commit"}));
+    w.exec(&json!({"op":"merge"}));
+    w.exec(&json!({"op":"reload"}));
+    w.dir.set_fault(FaultPlan::default());
+    w.exec(&json!({"op":"drop_writer"}));
+    tracer.emit(json!({"ev":"heal","fired":1}));
+    w.exec(&json!({"op":"new_writer"}));
+    w.exec(&json!({"op":"add","id":9000,"t":"zz","v":0}));
+    w.exec(&json!({"op":"commit"}));
+    w.exec(&json!({"op":"wait_merges"}));
+    w.exec(&json!({"op":"observe"}));
+    tantivy::verif::set_sink(None);
+    tracer.emit(json!({"ev":"end","listing":w.dir.listing(),"locks":w.dir.lock_files(),"managed":w.managed()}));
+}
+
 fn main() {
     let a = Args::parse();
     let tracer = Tracer::to_file(&a.get("out", "/dev/stdout"));
@@ -144,6 +176,11 @@ fn main() {
     let mut rng = StdRng::seed_from_u64(seed);
     let wl = workloads();
     std::panic::set_hook(Box::new(|_| {}));
+    if a.pos.get(0).map(|s| s.as_str()) == Some("f40") {
+        run_f40(&tracer);
+        tracer.flush();
+        return;
+    }
     let only: Option<usize> = a.kv.get("workload").map(|s| s.parse().unwrap());
     let mut total = 0u64;
     let mut slow_runs = 0u32;
@@ -196,9 +233,9 @@ fn main() {
                 // lock-file faults: creation and flush of a lock file fail transiently (F18 class);
                 // a failing unlink of a lock file is outside what the lock-file protocol can survive
                 let plan = if locks {
-                    FaultPlan { k, permanent: false, ops: vec!["open_write".into(), "flush".into()], skip_locks: false, after_effect: false, only_locks: true }
+                    FaultPlan { k, permanent: false, ops: vec!["open_write".into(), "flush".into()], skip_locks: false, after_effect: false, only_locks: true, ..Default::default() }
                 } else {
-                    FaultPlan { k, permanent: *permanent, ops: vec![], skip_locks: true, after_effect: (k % 7 == 3), only_locks: false }
+                    FaultPlan { k, permanent: *permanent, ops: vec![], skip_locks: true, after_effect: (k % 7 == 3), only_locks: false, ..Default::default() }
                 };
                 run_one(&tracer, cfg, ops, Some(plan), policy, json!({"workload":wi,"k":k,"permanent":permanent,"policy":policy,"n":n,"locks":locks}), false);
                 total += 1;
